@@ -461,45 +461,100 @@ func (c *ctx) unaryShape(fd *ast.FuncDecl) (bool, bool) {
 		return false, false
 	}
 	ss := fd.Body.List
-	// minus, signed := false, false
+	// minus, signed := false, false      |   signs := 0
 	a, ok := ss[0].(*ast.AssignStmt)
-	if !ok || a.Tok != token.DEFINE || len(a.Lhs) != 2 || len(a.Rhs) != 2 || !isIdentNamed(a.Rhs[0], "false") || !isIdentNamed(a.Rhs[1], "false") {
+	if !ok || a.Tok != token.DEFINE {
 		return false, false
 	}
-	minus, ok1 := a.Lhs[0].(*ast.Ident)
-	signed, ok2 := a.Lhs[1].(*ast.Ident)
-	if !ok1 || !ok2 {
+	var minus, signed, count *ast.Ident
+	switch {
+	case len(a.Lhs) == 2 && len(a.Rhs) == 2 && isIdentNamed(a.Rhs[0], "false") && isIdentNamed(a.Rhs[1], "false"):
+		minus, _ = a.Lhs[0].(*ast.Ident)
+		signed, _ = a.Lhs[1].(*ast.Ident)
+		if minus == nil || signed == nil {
+			return false, false
+		}
+	case len(a.Lhs) == 1 && len(a.Rhs) == 1:
+		if z, ok := c.constInt(a.Rhs[0]); !ok || z != 0 {
+			return false, false
+		}
+		count, _ = a.Lhs[0].(*ast.Ident)
+		if count == nil {
+			return false, false
+		}
+	default:
 		return false, false
 	}
-	// for p.r.typ == itemMinus { p.next(); minus = !minus; signed = true }
+	// for p.r.typ == itemMinus { p.next(); minus = !minus; signed = true }   |   { p.next(); signs++ }
 	loop, ok := ss[1].(*ast.ForStmt)
-	if !ok || loop.Init != nil || loop.Post != nil || loop.Body == nil || len(loop.Body.List) != 3 {
+	if !ok || loop.Init != nil || loop.Post != nil || loop.Body == nil {
 		return false, false
 	}
 	cond, ok := unparen(loop.Cond).(*ast.BinaryExpr)
 	if !ok || cond.Op != token.EQL || !c.isTyp(cond.X, recv) || !isIdentNamed(cond.Y, "itemMinus") {
 		return false, false
 	}
-	sawNext, sawFlip, sawSigned := false, false, false
+	sawNext, sawFlip, sawSigned, sawInc, other := false, false, false, false, false
 	for _, s := range loop.Body.List {
 		switch x := s.(type) {
 		case *ast.ExprStmt:
-			if r, m, call, ok := methodCall(x.X); ok && m == "next" && c.sameIdent(r, recv) && len(call.Args) == 0 {
+			if r, m, call, ok := methodCall(x.X); ok && m == "next" && c.sameIdent(r, recv) && len(call.Args) == 0 && !sawNext {
 				sawNext = true
+			} else {
+				other = true
+			}
+		case *ast.IncDecStmt:
+			if count != nil && x.Tok == token.INC && c.sameIdent(x.X, count) && !sawInc {
+				sawInc = true
+			} else {
+				other = true
 			}
 		case *ast.AssignStmt:
-			if x.Tok == token.ASSIGN && len(x.Lhs) == 1 && len(x.Rhs) == 1 && c.sameIdent(x.Lhs[0], minus) {
-				if u, ok := unparen(x.Rhs[0]).(*ast.UnaryExpr); ok && u.Op == token.NOT && c.sameIdent(u.X, minus) {
+			switch {
+			case minus != nil && x.Tok == token.ASSIGN && len(x.Lhs) == 1 && len(x.Rhs) == 1 && c.sameIdent(x.Lhs[0], minus):
+				if u, ok := unparen(x.Rhs[0]).(*ast.UnaryExpr); ok && u.Op == token.NOT && c.sameIdent(u.X, minus) && !sawFlip {
 					sawFlip = true
+				} else {
+					other = true
 				}
-			}
-			if x.Tok == token.ASSIGN && len(x.Lhs) == 1 && len(x.Rhs) == 1 && c.sameIdent(x.Lhs[0], signed) && isIdentNamed(x.Rhs[0], "true") {
+			case signed != nil && x.Tok == token.ASSIGN && len(x.Lhs) == 1 && len(x.Rhs) == 1 && c.sameIdent(x.Lhs[0], signed) && isIdentNamed(x.Rhs[0], "true"):
 				sawSigned = true
+			default:
+				other = true
 			}
+		default:
+			other = true
 		}
 	}
-	if !sawNext || !sawFlip || !sawSigned {
+	if other || !sawNext || (count == nil && (!sawFlip || !sawSigned)) || (count != nil && !sawInc) {
 		return false, false
+	}
+	// "an odd number of signs was skipped" / "at least one sign was skipped", in either representation
+	isConst := func(e ast.Expr, k int64) bool { v, ok := c.constInt(e); return ok && v == k }
+	oddCond := func(e ast.Expr) bool {
+		if count == nil {
+			return c.sameIdent(e, minus)
+		}
+		b, ok := unparen(e).(*ast.BinaryExpr)
+		if !ok {
+			return false
+		}
+		m, ok := unparen(b.X).(*ast.BinaryExpr)
+		if !ok || !c.sameIdent(m.X, count) {
+			return false
+		}
+		parity := (m.Op == token.REM && isConst(m.Y, 2)) || (m.Op == token.AND && isConst(m.Y, 1))
+		return parity && ((b.Op == token.EQL && isConst(b.Y, 1)) || (b.Op == token.NEQ && isConst(b.Y, 0)))
+	}
+	anyCond := func(e ast.Expr) bool {
+		if count == nil {
+			return c.sameIdent(e, signed)
+		}
+		b, ok := unparen(e).(*ast.BinaryExpr)
+		if !ok || !c.sameIdent(b.X, count) {
+			return false
+		}
+		return (b.Op == token.GTR && isConst(b.Y, 0)) || (b.Op == token.NEQ && isConst(b.Y, 0)) || (b.Op == token.GEQ && isConst(b.Y, 1))
 	}
 	// opnd := p.<callee>(n)
 	o, ok := ss[2].(*ast.AssignStmt)
@@ -514,8 +569,21 @@ func (c *ctx) unaryShape(fd *ast.FuncDecl) (bool, bool) {
 		return false, false
 	}
 	// timesMinusOne(e, inner): e is newOperatorNode("*", inner, newOperandNode(float64(-1)))
-	timesMinusOne := func(e ast.Expr) (ast.Expr, bool) {
+	var timesMinusOne func(e ast.Expr) (ast.Expr, bool)
+	timesMinusOne = func(e ast.Expr) (ast.Expr, bool) {
 		fn, call, ok := funcCall(e)
+		if ok && fn != "newOperatorNode" && len(call.Args) == 1 {
+			// a helper `func negated(x node) node { return newOperatorNode("*", x, newOperandNode(float64(-1))) }`
+			if hd := c.funcDecl("", fn); hd != nil && hd.Body != nil && len(hd.Body.List) == 1 {
+				hps := params(hd.Type)
+				if ret, ok := hd.Body.List[0].(*ast.ReturnStmt); ok && len(ret.Results) == 1 && len(hps) == 1 && hps[0] != nil {
+					if inner, ok := timesMinusOne(ret.Results[0]); ok && c.sameIdent(inner, hps[0]) {
+						return call.Args[0], true
+					}
+				}
+			}
+			return nil, false
+		}
 		if !ok || fn != "newOperatorNode" || len(call.Args) != 3 {
 			return nil, false
 		}
@@ -537,7 +605,7 @@ func (c *ctx) unaryShape(fd *ast.FuncDecl) (bool, bool) {
 	}
 	// if minus { opnd = x * -1 } else if signed { opnd = (x * -1) * -1 }
 	ifs, ok := ss[3].(*ast.IfStmt)
-	if !ok || ifs.Init != nil || !c.sameIdent(ifs.Cond, minus) || ifs.Body == nil {
+	if !ok || ifs.Init != nil || !oddCond(ifs.Cond) || ifs.Body == nil {
 		return false, false
 	}
 	v, rhs, ok := opAssign(ifs.Body.List)
@@ -555,7 +623,7 @@ func (c *ctx) unaryShape(fd *ast.FuncDecl) (bool, bool) {
 	}
 	odd := true
 	even := false
-	if els, ok := ifs.Else.(*ast.IfStmt); ok && els.Init == nil && els.Else == nil && c.sameIdent(els.Cond, signed) && els.Body != nil {
+	if els, ok := ifs.Else.(*ast.IfStmt); ok && els.Init == nil && els.Else == nil && anyCond(els.Cond) && els.Body != nil {
 		if v2, rhs2, ok := opAssign(els.Body.List); ok && c.sameIdent(v2, opnd) {
 			if in1, ok := timesMinusOne(rhs2); ok {
 				if in2, ok := timesMinusOne(in1); ok && c.sameIdent(in2, opnd) {
